@@ -39,6 +39,35 @@ def f32ToF64 (b : Nat) : Option Nat :=
   else if e = 255 then (if m = 0 then some (s * 2 ^ 63 + 2047 * 2 ^ 52) else none)
   else some (s * 2 ^ 63 + (e + 896) * 2 ^ 52 + m * 2 ^ 29)
 
+/-! `float64 -> float32` as `struct.pack('>f', x)` does it: the C cast `(float) x` under the default rounding mode
+(round to nearest, ties to even), on bit patterns.  A double of exponent field `e'` (1 for subnormals) and
+significand `sig` (with the implicit bit) is worth `sig * 2^(e' - 1075)`; the single keeps `53 - shift` bits. -/
+
+/-- how many low bits of the significand a single cannot hold (29 for normal singles, more as it gets subnormal) -/
+def f32Shift (e' : Nat) : Nat := if e' ≥ 897 then 29 else 926 - e'
+/-- the exponent part of the single's magnitude bits, less one unit that the significand's leading bit brings -/
+def f32Base (e' : Nat) : Nat := if e' ≥ 897 then (e' - 897) * 2 ^ 23 else 0
+def roundUp (sig shift : Nat) : Nat :=
+  if sig % 2 ^ shift > 2 ^ (shift - 1) ∨ (sig % 2 ^ shift = 2 ^ (shift - 1) ∧ sig / 2 ^ shift % 2 = 1) then 1 else 0
+/-- magnitude bits (exponent and fraction fields) of the rounded single; a carry out of the fraction runs into the
+exponent, as it should -/
+def roundMag (sig e' : Nat) : Nat := f32Base e' + sig / 2 ^ f32Shift e' + roundUp sig (f32Shift e')
+
+/-- `struct.pack('>f', x)` of a Python float given by its bit pattern -> bit pattern of the single.  A finite
+double that rounds beyond the largest finite single raises OverflowError ("float too large to pack with f format");
+a NaN keeps its sign and the upper 22 payload bits and comes out quiet (what the x86-64 / AArch64 conversion
+instructions do; CPython 3.12 adds nothing to the C cast). -/
+def f64ToF32 (b : Nat) : Except Err Nat :=
+  let s := b / 2 ^ 63
+  let e := b / 2 ^ 52 % 2048
+  let m := b % 2 ^ 52
+  if e = 2047 then
+    if m = 0 then .ok (s * 2 ^ 31 + 255 * 2 ^ 23)
+    else .ok (s * 2 ^ 31 + 255 * 2 ^ 23 + 2 ^ 22 + m / 2 ^ 29 % 2 ^ 22)
+  else
+    let mag := roundMag (if e = 0 then m else 2 ^ 52 + m) (if e = 0 then 1 else e)
+    if mag ≥ 255 * 2 ^ 23 then .error .overflow else .ok (s * 2 ^ 31 + mag)
+
 /-- `write_struct(representation_code, value)` -/
 def encVal (rc : Nat) (v : AVal) : Except Err Bytes :=
   let asInt : Option Int := match v with
@@ -64,8 +93,9 @@ def encVal (rc : Nat) (v : AVal) : Except Err Bytes :=
     | _ => .error .struct
   | 2 => match v with
     | .f32 b => if b < 2 ^ 32 then .ok (beN 4 b) else .error .unmodelled
-    | .f64 _ => .error .unmodelled     -- double -> single rounding is outside the model
-    | .int _ => .error .unmodelled
+    | .f64 b => if b < 2 ^ 64 then (f64ToF32 b).map (beN 4) else .error .unmodelled
+    | .int i => match intToF64 i with
+      | some d => (f64ToF32 d).map (beN 4) | none => .error .unmodelled
     | .bool b => .ok (beN 4 (if b then 0x3F800000 else 0))
     | _ => .error .struct
   | 19 => match v with
